@@ -267,6 +267,7 @@ type AnonInner struct {
 		W string `@Int`
 	} `@@?`
 }
+
 // two anonymous struct types that differ only in their grammar tags
 type AnonTwins struct {
 	A struct {
@@ -330,7 +331,43 @@ func statics() []struct {
 
 var _ = lexer.EOF
 
+// two parsers over the SAME root type with different Union members: each prints its own grammar
+func runTwins(w *hx.Worker) {
+	w.Count("evaluations", 1)
+	lx := participle.Lexer(gramreg.Lexer)
+	key := "static :: same root type built twice with different unions"
+	var a, b string
+	pan, msg := hx.Guard(func() {
+		p1, err := participle.Build[UnionRoot](lx, participle.Union[Value](StrV{}, NumV{}))
+		if err != nil {
+			panic(err)
+		}
+		a = p1.String()
+		p2, err := participle.Build[UnionRoot](lx, participle.Union[Value](NumV{}))
+		if err != nil {
+			panic(err)
+		}
+		b = p2.String()
+		_ = p1.String()
+	})
+	if pan {
+		w.Violate(hx.Violation{Key: key, Class: "String-panics", Detail: map[string]any{"panic": msg}})
+		return
+	}
+	if !strings.Contains(a, "StrV") || strings.Contains(b, "StrV") || !strings.Contains(b, "NumV") {
+		w.Violate(hx.Violation{Key: key, Class: "ebnf-incomplete-or-altered", Detail: map[string]any{"first": a, "second": b}})
+		return
+	}
+	for _, t := range []string{a, b} {
+		if _, cls, detail := checkText(t, "UnionRoot"); cls != "" {
+			w.Violate(hx.Violation{Key: key, Class: cls, Detail: map[string]any{"ebnf": t, "detail": detail}})
+		}
+	}
+	w.DistinctS(a + b)
+}
+
 func runStatics(w *hx.Worker) {
+	runTwins(w)
 	for _, s := range statics() {
 		key := "static :: " + s.name
 		w.Count("evaluations", 1)
